@@ -2,6 +2,7 @@
 // (stepped mode: DirectProtocolHandler::run() executes one loop iteration per call when the thread is not started).
 // Modes: c01 (passive reception), c02 (active requests), c03 (entitlement), c15 (answer mode).
 #include "bus_sim.h"
+#include "bus_mon.h"
 
 using namespace bsim;
 using namespace vf;
@@ -10,6 +11,7 @@ static Stats st;
 static long g_only = -1;
 static bool g_verbose = false;
 static uint64_t g_seed = 1;
+static std::string g_filter;
 
 struct Config {
   uint8_t own = 0x31; bool readOnly = false, answer = false, generateSyn = false, enhanced = false;
@@ -61,6 +63,8 @@ struct World {
 
   void start(Rng* rng) {
     g.reset();
+    // every run starts at a clock value derived from its own PRNG stream (second boundaries matter for the signal-loss logic)
+    g.now = 1700000000LL * 1000000000LL + (int64_t)(rng ? rng->below(1000) : 0) * MS;
     bus = Bus();
     bus.enhanced = cfg.enhanced;
     bus.rng = rng;
@@ -128,7 +132,7 @@ static std::string corrupt(Rng& r, const Telegram& t, std::vector<uint8_t>* w, s
   wireOf(t, false, false, false, false, w, &org);
   size_t n = w->size();
   gaps->assign(n, 0);
-  int kind = r.range(0, 12);
+  int kind = r.range(0, 14);
   size_t pos = r.below((uint32_t)n);
   switch (kind) {
     case 0: (*w)[pos] ^= (uint8_t)(1 << r.below(8)); return "bitflip@" + std::to_string(pos);
@@ -158,6 +162,35 @@ static std::string corrupt(Rng& r, const Telegram& t, std::vector<uint8_t>* w, s
       wireOf(x, false, false, false, false, w, &org);
       gaps->assign(w->size(), 0);
       return "non-master-source-valid-crc"; }
+    case 13: { // invalid escape pair (a9 followed by >01) inside the data, CRC computed over exactly these wire bytes
+      Telegram x = t;
+      if (x.data.empty()) x.data.push_back(0xAA);
+      x.data[r.below((uint32_t)x.data.size())] = 0xAA;
+      std::vector<uint8_t> m = {x.qq, x.zz, x.pb, x.sb, (uint8_t)x.data.size()};
+      m.insert(m.end(), x.data.begin(), x.data.end());
+      std::vector<uint8_t> wire;
+      for (uint8_t b : m) specEscape(b, &wire);
+      // turn the first "a9 01" of the data into "a9 xx"
+      for (size_t k = 5; k + 1 < wire.size(); k++) if (wire[k] == 0xA9 && wire[k + 1] == 0x01) { wire[k + 1] = r.pick(std::vector<uint8_t>{0x02, 0x03, 0x80, 0xFF, 0xA9}); break; }
+      uint8_t crc = 0;
+      for (uint8_t b : wire) crc = specCrcStep(b, crc);
+      specEscape(crc, &wire);
+      if (x.zz != 0xFE) wire.push_back(0x00);
+      if (x.zz != 0xFE && !specIsMaster(x.zz)) { auto sp = specWire({0x00}); wire.insert(wire.end(), sp.begin(), sp.end()); wire.push_back(0x00); }
+      *w = wire;
+      gaps->assign(w->size(), 0);
+      return "bad-escape-consistent-crc"; }
+    case 14: { // destination invalid (own source, or escaped a9/aa) with correct CRC
+      Telegram x = t;
+      x.zz = r.pick(std::vector<uint8_t>{x.qq, 0xA9, 0xAA});
+      w->clear(); org.clear();
+      std::vector<uint8_t> m = {x.qq, x.zz, x.pb, x.sb, (uint8_t)x.data.size()};
+      m.insert(m.end(), x.data.begin(), x.data.end());
+      *w = specWire(m);
+      w->push_back(0x00);
+      if (!specIsMaster(x.zz)) { auto sp = specWire({0x01, 0x55}); w->insert(w->end(), sp.begin(), sp.end()); w->push_back(0x00); }
+      gaps->assign(w->size(), 0);
+      return "zz-invalid-valid-crc"; }
     case 10: { // CRC of the last part wrong
       (*w)[t.zz == 0xFE ? n - 1 : n - (specIsMaster(t.zz) ? 2 : 2)] ^= 0x01; return "crc-flip"; }
     default: { // ACK although the master CRC is wrong
@@ -299,6 +332,228 @@ static void modeC01(Rng& r0, long ncases) {
   }
 }
 
+
+// ---- C02 / C03 / C15: active scenarios ---------------------------------------------------------------------------------
+struct Submission { int64_t at; ObsRequest* req; bool submitted = false; };
+
+struct ActiveCase {
+  Config cfg;
+  std::vector<Item> items;                 // foreign traffic
+  std::vector<PeerScript> peers;
+  std::vector<std::pair<int64_t, std::vector<uint8_t>>> requests;   // (submit offset ns, master bytes)
+  long echoCorruptAt = -1;
+  std::vector<AnswerDef> answers;
+  std::string desc;
+};
+
+static std::vector<uint8_t> randMaster(Rng& r, uint8_t own, int kind = -1) {
+  std::vector<uint8_t> m;
+  m.push_back(own);
+  if (kind < 0) kind = r.range(0, 9);
+  uint8_t zz;
+  if (kind < 2) zz = 0xFE;
+  else if (kind < 4) { do { zz = MASTERS[r.below(25)]; } while (zz == own); }
+  else { do { zz = r.chance(1, 2) ? (uint8_t)(MASTERS[r.below(25)] + 5) : r.byte(); } while (zz == 0xA9 || zz == 0xAA || zz == own || specIsMaster(zz) || zz == 0xFE); }
+  m.push_back(zz);
+  m.push_back(biasedByte(r)); m.push_back(biasedByte(r));
+  size_t nn = (size_t)r.range(0, 16);
+  m.push_back((uint8_t)nn);
+  for (size_t i = 0; i < nn; i++) m.push_back(biasedByte(r));
+  return m;
+}
+
+static PeerScript randPeer(Rng& r, bool hostile) {
+  PeerScript p;
+  for (int k = 0; k < 2; k++) {
+    p.cmdAck[k] = !hostile || r.chance(3, 5) ? 0 : r.range(1, 4);
+    p.respCrcXor[k] = hostile && r.chance(1, 4) ? (uint8_t)r.range(1, 255) : 0;
+    p.respCut[k] = hostile && r.chance(1, 8) ? r.range(0, 6) : -1;
+  }
+  p.otherSym = r.byte();
+  if (p.otherSym == 0x00 || p.otherSym == 0xFF || p.otherSym == 0xAA) p.otherSym = 0x42;
+  size_t sn = (size_t)r.range(0, 16);
+  p.resp.push_back((uint8_t)sn);
+  for (size_t i = 0; i < sn; i++) p.resp.push_back(biasedByte(r));
+  if (hostile && r.chance(1, 10)) p.resp[0] = (uint8_t)(sn + r.range(1, 3));   // announces more than it sends
+  p.respAltSecond = r.chance(1, 3);
+  return p;
+}
+
+struct ActiveResult { std::vector<ReqInfo> reqs; long adverse = 0, exchanges = 0, arbLost = 0, hostBytes = 0, autoSyns = 0, answers = 0; bool finished = false; };
+
+static bool runActive(Rng& r, const ActiveCase& c, const std::string& tag, const std::string& prefixFilter, ActiveResult* out) {
+  World w;
+  w.cfg = c.cfg;
+  w.start(&r);
+  w.bus.autoSyn = true;
+  w.bus.echoCorruptAt = c.echoCorruptAt;
+  for (auto& p : c.peers) w.bus.peers.push_back(p);
+  Item s; s.kind = Item::SYN;
+  for (int i = 0; i < 4; i++) w.bus.script.push_back(s);
+  for (auto& it : c.items) w.bus.script.push_back(it);
+  // answers (C15)
+  for (auto& a : c.answers) {
+    SlaveSymbolString resp;
+    for (uint8_t b : a.resp) resp.push_back(b);
+    w.handler->setAnswer(a.anySrc ? SYN : a.src, a.dst, a.pb, a.sb, a.id.data(), a.id.size(), resp);
+  }
+  std::vector<std::unique_ptr<ObsRequest>> reqObjs;
+  std::vector<Submission> subs;
+  int64_t t0 = g.now;
+  for (auto& rq : c.requests) {
+    MasterSymbolString m;
+    for (uint8_t b : rq.second) m.push_back(b);
+    reqObjs.emplace_back(new ObsRequest(m, false));
+    subs.push_back({t0 + rq.first, reqObjs.back().get()});
+  }
+  std::vector<int64_t> submittedAt(subs.size(), -1);
+  long maxSteps = 60000;
+  int quiet = 0;
+  bool fin = false;
+  while (w.steps < maxSteps) {
+    for (size_t i = 0; i < subs.size(); i++) if (!subs[i].submitted && subs[i].at <= g.now) {
+      subs[i].submitted = true; submittedAt[i] = g.now;
+      result_t ar = w.handler->addRequest(subs[i].req, false);
+      if (ar != RESULT_OK) { subs[i].req->notifications = 1; subs[i].req->result = ar; subs[i].req->doneAt = g.now; }
+    }
+    w.handler->step();
+    w.steps++;
+    bool allDone = true;
+    for (auto& sb : subs) if (!sb.submitted || sb.req->notifications == 0) allDone = false;
+    if (allDone && w.bus.script.empty() && !w.bus.awaitHostAnswer) {
+      if (w.bus.autoSynBudget > 4) w.bus.autoSynBudget = 4;
+      if (w.bus.scriptDone() && g.rx.empty() && ++quiet > 6) { fin = true; break; }
+    }
+    if (g.now - t0 > 120LL * 1000 * MS) break;     // two virtual minutes
+  }
+  st.n["steps"] += w.steps;
+  st.n["bus_bytes"] += (long long)w.bus.log.size();
+  for (auto& sb : subs) w.handler->takeFinished(sb.req);
+  MonConfig mc{c.cfg.own, c.cfg.readOnly, c.cfg.generateSyn, c.cfg.enhanced, c.cfg.answer, c.answers};
+  std::vector<ReqInfo> reqs;
+  for (size_t i = 0; i < subs.size(); i++) {
+    ReqInfo ri;
+    ri.master = c.requests[i].second;
+    ri.submitted = submittedAt[i] < 0 ? (int64_t)1 << 62 : submittedAt[i];
+    ri.done = subs[i].req->notifications ? subs[i].req->doneAt : -1;
+    ri.result = subs[i].req->result;
+    ri.slave = subs[i].req->slave;
+    ri.notifications = subs[i].req->notifications;
+    reqs.push_back(ri);
+  }
+  TxMonitor mon;
+  mon.run(w.bus.log, reqs, mc);
+  bool bad = false;
+  auto report = [&](const std::string& key, const std::string& detail) {
+    if (key.compare(0, prefixFilter.size(), prefixFilter) != 0 && !prefixFilter.empty()) { st.n["other_property_alarms"]++; return; }
+    violation(key, tag + " " + c.cfg.str() + " " + c.desc + ": " + detail);
+    bad = true;
+  };
+  for (auto& v : mon.viol) report(v.first, v.second);
+  if (!fin) report(prefixFilter.empty() ? "c02-request-never-completes" : prefixFilter + "-no-quiescence", "requests did not complete within two virtual minutes; bus " + logHex(w.bus.log).substr(0, 400));
+  // truthful result (C02): OK iff a complete valid exchange of this request is on the wire; then slave data and md_send agree
+  std::vector<Reported> sent;
+  for (auto& m : w.lis.msgs) if (m.dir == md_send) sent.push_back(m);
+  size_t sentUsed = 0;
+  for (auto& ri : reqs) {
+    if (ri.notifications == 0) continue;
+    if (ri.notifications > 1) report("c02-notified-twice", vf::hex(ri.master));
+    bool ok = ri.result == RESULT_OK;
+    if (ok != ri.validSeen) report(ok ? "c02-success-without-valid-exchange" : "c02-error-despite-valid-exchange",
+      "request " + vf::hex(ri.master) + " result " + std::to_string(ri.result) + " exchanges " + std::to_string(ri.exchanges) + " bus " + logHex(w.bus.log).substr(0, 700));
+    if (ok && ri.validSeen) {
+      if (ri.slave != ri.validSlave && !(ri.validSlave.empty() && ri.slave.empty())) report("c02-wrong-slave-data", "request " + vf::hex(ri.master) + " got " + vf::hex(ri.slave) + " wire " + vf::hex(ri.validSlave));
+      bool found = false;
+      for (auto& m : sent) if (m.master == ri.master && (m.slave == ri.validSlave || ri.validSlave.empty())) found = true;
+      if (!found) report("c02-no-sent-message-report", "request " + vf::hex(ri.master));
+      sentUsed++;
+    }
+    unsigned maxEx = (c.cfg.busLostRetries + 1);
+    if ((unsigned)ri.exchanges > maxEx + 0 && false) report("c02-too-many-exchanges", std::to_string(ri.exchanges));
+  }
+  if (sent.size() > sentUsed) report("c02-sent-report-without-success", std::to_string(sent.size()) + " md_send reports, " + std::to_string(sentUsed) + " successful requests");
+  for (auto& m : w.lis.msgs) if (m.dir == md_answer && c.answers.empty()) report("c15-answer-report-without-registration", telStr(m.master, m.slave));
+  if (g_verbose) {
+    printf("BUS %s\n", logHex(w.bus.log).c_str());
+    for (auto& ri : reqs) printf("REQ %s result=%d notifications=%d exchanges=%d valid=%d slave=%s\n", vf::hex(ri.master).c_str(), ri.result, ri.notifications, ri.exchanges, ri.validSeen, vf::hex(ri.slave).c_str());
+    printf("TRACE %s\n", w.tdev->trace.c_str());
+  }
+  if (out) {
+    out->reqs = reqs; out->adverse = mon.adverse; out->exchanges = mon.exchangesSeen; out->arbLost = mon.arbLost; out->hostBytes = mon.hostBytes;
+    out->autoSyns = mon.autoSyns; out->answers = mon.answersSeen; out->finished = fin;
+  }
+  st.n["host_bytes"] += mon.hostBytes; st.n["exchanges"] += mon.exchangesSeen; st.n["arbitrations_lost"] += mon.arbLost;
+  st.n["adverse_events"] += mon.adverse; st.n["auto_syns"] += mon.autoSyns;
+  return !bad;
+}
+
+/** a foreign telegram item that takes part in arbitration */
+static Item foreignTelegram(Rng& r, uint8_t qq, const Config& cfg) {
+  Telegram t = randTelegram(r, cfg);
+  t.qq = qq;
+  if (t.zz == qq) t.zz = 0xFE;
+  // not addressed to the host
+  if (t.zz == cfg.own || t.zz == (uint8_t)(cfg.own + 5)) t.zz = 0xFE;
+  Item it; it.kind = Item::TELEGRAM; it.arbitrates = true;
+  wireOf(t, r.chance(1, 8), r.chance(1, 8), false, false, &it.bytes, &it.origins);
+  return it;
+}
+
+static void modeActive(long ncases, const std::string& which) {
+  for (long ci = 0; ci < ncases; ci++) {
+    if (g_only >= 0 && ci != g_only) continue;
+    Rng r(g_seed * 1000003ULL + (uint64_t)ci + 77);
+    ActiveCase c;
+    c.cfg.own = MASTERS[r.below(25)];
+    c.cfg.enhanced = r.chance(1, 2);
+    c.cfg.lockCount = r.pick(std::vector<unsigned>{0, 0, 3, 5});
+    c.cfg.busLostRetries = r.pick(std::vector<unsigned>{0, 1, 3});
+    c.cfg.failedSendRetries = 0;
+    c.cfg.readOnly = which == "c03" && r.chance(1, 8);
+    c.cfg.generateSyn = false;
+    bool hostileTraffic = which == "c03";
+    int nreq = r.range(1, 3);
+    int64_t at = (int64_t)r.range(150, 400) * MS;
+    for (int k = 0; k < nreq; k++) {
+      c.requests.push_back({at, randMaster(r, c.cfg.own)});
+      at += (int64_t)r.range(0, 300) * MS + (r.chance(1, 3) ? (int64_t)r.range(0, 4000) * 1000 : 0);
+      for (unsigned e = 0; e <= c.cfg.busLostRetries + 1; e++) c.peers.push_back(randPeer(r, which == "c02" ? r.chance(1, 2) : r.chance(1, 5)));
+    }
+    if (r.chance(1, which == "c02" ? 3 : 6)) c.echoCorruptAt = r.range(0, 40);
+    Item s; s.kind = Item::SYN;
+    if (hostileTraffic) {
+      int nf = r.range(2, 12);
+      for (int k = 0; k < nf; k++) {
+        // competitor addresses around the own one: same / other priority class, higher / lower
+        uint8_t q;
+        int kk = r.range(0, 3);
+        if (kk == 0) q = MASTERS[r.below(25)];
+        else if (kk == 1) q = (uint8_t)((c.cfg.own & 0x0F) | (MASTERS[r.below(25)] & 0xF0));   // same priority class
+        else q = (uint8_t)((c.cfg.own & 0xF0) | (MASTERS[r.below(25)] & 0x0F));
+        if (!specIsMaster(q) || q == c.cfg.own) q = MASTERS[(r.below(24) + 1) % 25] == c.cfg.own ? 0x10 : MASTERS[r.below(25)];
+        if (q == c.cfg.own) q = (uint8_t)(c.cfg.own == 0x10 ? 0x30 : 0x10);
+        s.gap = r.chance(1, 3) ? (int64_t)r.range(5, 44) * MS : 0;
+        c.items.push_back(s);
+        c.items.push_back(foreignTelegram(r, q, c.cfg));
+        if (r.chance(1, 6)) { Item n; n.kind = Item::BYTES; for (int b = r.range(1, 4); b > 0; b--) n.bytes.push_back(r.byte()); c.items.push_back(n); }
+        if (r.chance(1, 8)) { Item gp; gp.kind = Item::GAP; gp.gap = (int64_t)r.range(100, 1500) * MS; c.items.push_back(gp); }
+        for (int i = r.range(0, 3); i > 0; i--) { s.gap = (int64_t)r.range(20, 44) * MS; c.items.push_back(s); }
+      }
+      s.gap = 0;
+    }
+    c.desc = which + " nreq=" + std::to_string(nreq) + " foreign=" + std::to_string(c.items.size()) + " echoCorruptAt=" + std::to_string(c.echoCorruptAt);
+    current(which + " case " + std::to_string(ci));
+    st.n["evaluations"]++;
+    ActiveResult res;
+    std::string tag = "case=" + std::to_string(ci);
+    runActive(r, c, tag, g_filter.empty() ? which : g_filter, &res);
+    if (res.adverse > 0 && res.hostBytes > 0) st.n["distinct_nontrivial"]++;
+    if (c.cfg.readOnly) st.n["readonly_histories"]++;
+    for (auto& ri : res.reqs) { st.hist["request_results"][std::to_string(ri.result)]++; }
+    if (ci < 2) st.sample("samples", c.cfg.str() + " " + c.desc + " first request " + (c.requests.empty() ? "" : vf::hex(c.requests[0].second)));
+  }
+}
+
 int main(int argc, char** argv) {
   Args a(argc, argv);
   installDeathCallback();
@@ -307,9 +562,11 @@ int main(int argc, char** argv) {
   Rng r((uint64_t)a.num("seed", 1));
   g_seed = (uint64_t)a.num("seed", 1);
   g_only = a.num("only", -1);
+  g_filter = a.str("filter", "");
   g_verbose = a.num("verbose", 0) != 0;
   long n = a.num("n", 100);
   if (mode == "c01") modeC01(r, n);
+  if (mode == "c02" || mode == "c03") modeActive(n, mode);
   st.emit();
   return g_violations ? 1 : 0;
 }
